@@ -82,6 +82,30 @@ def exSuperviseBody (σ : Env) : Obs :=
     (if σ "e.source.Start#0" = 0 then [] else [("time.Sleep", [wrap64 (10 * σ "time.Second")])]),
    (if σ "e.source.Start#0" = 0 then some [1] else none), false⟩
 
+def exExecuteTail (σ : Env) : Obs :=
+  ⟨[("foreach e.rootNodes: close", [σ "rootNode.Ch"]),
+    ("waitTimeout", [σ "&e.wg", wrap64 (σ "e.config.ShutdownTimeOut" * σ "time.Second")])] ++
+    (if σ "waitTimeout#0" ≠ 0 then [("foreach e.rootNodes: e.stopWorkers", [σ "rootNode"])] else []) ++
+    [("message.ShutdownKafkaSender", [])], none, false⟩
+
+/-- what a worker does at the end of its node's input -/
+def cascadeCalls (σ : Env) : List (String × List Int) :=
+  [("node.WaitGroup.Done", []), ("node.WaitGroup.Wait", []), ("node.ShutdownOnce.Do", [])] ++
+  (if σ "node.ShutdownOnce.Do#0" ≠ 0 then
+    [("shutDownNode", []), ("foreach node.Children: close", [σ "child.Ch"])] ++
+    (if σ "node.ErrorHandler" ≠ 0 then [("close", [σ "node.ErrorHandler.Ch"])] else [])
+   else [])
+
+def exRunNodeBody (σ : Env) : Obs :=
+  if σ "select#0" = 0 then
+    ⟨[("select", [σ "node.StopCh", σ "node.Ch"]), ("shutDownNode", [])], some [], false⟩
+  else if σ "recv node.Ch#1" = 0 then
+    ⟨[("select", [σ "node.StopCh", σ "node.Ch"]), ("recv node.Ch", [])] ++ cascadeCalls σ, some [], false⟩
+  else
+    ⟨[("select", [σ "node.StopCh", σ "node.Ch"]), ("recv node.Ch", []), ("node.ProcessEvent", [σ "&event"])], none, false⟩
+
+def exRunNodeBodyPre (σ : Env) : Bool := σ "select#0" == 0 || σ "select#0" == 1
+
 /-- one entry per exact theorem: the translated term, its expected observation, the theorem's hypothesis -/
 structure Case where
   name : String
@@ -98,6 +122,8 @@ def cases : List Case := [
   ⟨"rootDeliverBody", Trans.exRootDeliverBody, exRootDeliverBody, fun _ => true⟩,
   ⟨"exDeliverToNode", Trans.exDeliverToNode, exDeliverToNode, fun _ => true⟩,
   ⟨"prepareSource", Trans.exPrepareSource, exPrepareSource, fun _ => true⟩,
-  ⟨"superviseBody", Trans.exSuperviseBody, exSuperviseBody, fun _ => true⟩]
+  ⟨"superviseBody", Trans.exSuperviseBody, exSuperviseBody, fun _ => true⟩,
+  ⟨"executeTail", Trans.exExecuteTail, exExecuteTail, fun _ => true⟩,
+  ⟨"runNodeBody", Trans.exRunNodeBody, exRunNodeBody, exRunNodeBodyPre⟩]
 
 end Firebolt.TransExpected
